@@ -53,6 +53,9 @@ def run(prog, R, tier="quick", only_rule=None):
     c08.with_merge_guards(prog, rj)
     rj.floor(2)
     c09.c09j(prog, R, rid="C20.k")
+    # a version is visible in memory only after it is on disk (else the files it names may never become durable / named)
+    from rules.props import c02
+    c02.c02a(prog, R, rid="C20.l")
 
 
 def c20a(prog, R):
